@@ -30,6 +30,7 @@ type mapTr struct {
 	onces  map[string]bool
 	maps   map[string]bool
 	tables map[string]bool
+	ints   *constTable // integer constants of the package
 	lines  []string
 }
 
@@ -166,9 +167,9 @@ func (m *mapTr) closure(list []ast.Stmt, ind int) {
 			}
 			if len(mk.Args) == 2 {
 				// the capacity hint has no observable effect provided it is a non-negative constant
-				bl, ok := mk.Args[1].(*ast.BasicLit)
-				if !ok || bl.Kind != token.INT || strings.HasPrefix(bl.Value, "-") {
-					m.bad(x, "map capacity hint that is not a non-negative integer literal")
+				// (a literal, or an integer constant expression over named constants: consteval.go)
+				if v, ok := m.ints.eval(mk.Args[1]); !ok || v.Sign() < 0 || !v.IsInt64() {
+					m.bad(x, "map capacity hint that is not a non-negative integer constant")
 				}
 			}
 			m.add(ind, "Go.bindC (Go.setMapVar Gen.map_"+v.Name+" Go.makeMap) fun _ =>")
@@ -294,7 +295,7 @@ func mappingLean(fset *token.FileSet, files map[string]*ast.File, lf *LangFacts,
 	if fd == nil || fd.Body == nil {
 		return refuse("method Language.mapping not found")
 	}
-	m := &mapTr{fset: fset, consts: map[string]bool{}, onces: map[string]bool{}, maps: map[string]bool{}, tables: tables}
+	m := &mapTr{fset: fset, consts: map[string]bool{}, onces: map[string]bool{}, maps: map[string]bool{}, tables: tables, ints: newConstTable(files)}
 	for _, c := range lf.Consts {
 		m.consts[c[0]] = true
 	}
